@@ -128,7 +128,37 @@ def bounded_encoded_command(tier, seed):
     return {"evaluations": n, "distinct_nontrivial": len(distinct), "scope": "5 texts x {no BOM, LE BOM, BE BOM} x 5 switch spellings x 3 switch prefixes", "failures": failures, "samples": [{"encoded_command": b"x = powershell -e ZQBjAGgAbwA=".hex()}]}
 
 
-BOUNDED = [bounded_cmd, bounded_encoded_command]
+def bounded_powershell_context(tier, seed):
+    """Non-encoded PowerShell commands: what delimits the command is the quote / FOR-loop context that PRECEDES the token, so the reported value does not
+    depend on whether the token sits at offset 0 or behind neutral text, nor on quotes that only FOLLOW it."""
+    import random
+
+    from multidecoder.decoders.shell import find_powershell_strings
+
+    rng = random.Random(seed)
+    failures, n = [], 0
+    tails = [b' -nop -c "Get-Date" ; exit', b" -nop -w hidden iex('a') ; b", b" -file run.ps1", b' Write-Host "x" \'y\'', b" -c ls ')", b' "a" "b"']
+    tokens = [b"powershell", b"pwsh", b"PowerShell.exe", b"p^owershell"]
+    for tok in tokens:
+        for tail in tails:
+            cmd = tok + tail
+            vals = []
+            for pre in (b"", b"\n", b"x;", b"   "):
+                n += 1
+                try:
+                    hits = find_powershell_strings(pre + cmd)
+                except Exception as e:  # noqa: BLE001
+                    failures.append({"id": f"find_powershell_strings raises {type(e).__name__}", "function": "multidecoder.decoders.shell.find_powershell_strings", "obligation": "safe", "case": {"ps": (pre + cmd).hex()}, "observed": f"{type(e).__name__}: {e}"})
+                    continue
+                vals.append((pre, [h.value for h in hits if h.start == len(pre)]))
+            if len({tuple(v) for _, v in vals}) > 1 and len(failures) < 3:
+                failures.append({"id": f"powershell value depends on the offset: {cmd[:30]!r}", "function": "multidecoder.decoders.shell.find_powershell_strings", "obligation": "post", "case": {"ps": cmd.hex()},
+                                 "observed": f"{cmd!r}: values by prefix {[(p_, v) for p_, v in vals]!r}"})
+    return {"evaluations": n, "distinct_nontrivial": len(tokens) * len(tails), "scope": "4 token spellings x 6 tails with quotes after the token x {offset 0, after a newline, after `x;`, after blanks}", "failures": failures,
+            "samples": [{"ps": (tokens[0] + tails[0]).hex()}]}
+
+
+BOUNDED = [bounded_cmd, bounded_encoded_command, bounded_powershell_context]
 
 
 def replay(case):
